@@ -632,5 +632,305 @@ theorem armBody_tokstep {cert : Cert} (hs : SinkSafe env.ops W inp U1) (hw : Wf 
         simp only [Bool.false_eq_true, if_false]
         exact hc
 
+
+/-! ### sequence arms, ordinary arms -/
+
+theorem ATag.le_refl (a : ATag) : a.le a = true := by cases a <;> rfl
+theorem AAttr.le_refl (a : AAttr) : a.le a = true := by cases a <;> rfl
+theorem ANT.le_refl (a : ANT) : a.le a = true := by cases a <;> simp [ANT.le]
+theorem AbsS.le_refl (a : AbsS) : a.le a = true := by
+  cases a with
+  | some l => cases l <;> simp [AbsS.le]
+  | _ => simp [AbsS.le]
+
+theorem Abs.le_refl (a : Abs) : a.le a = true := by
+  simp only [Abs.le, AbsL.le, ATag.le_refl, AAttr.le_refl, ANT.le_refl, AbsS.le_refl, Bool.and_true, Bool.true_and]
+  cases a.l.tps <;> rfl
+
+theorem covered_of_mem {l : List Abs} {a : Abs} (h : a ∈ l) : covered l a = true := by
+  unfold covered
+  rw [List.any_eq_true]
+  exact ⟨a, h, Abs.le_refl a⟩
+
+theorem covered_elim {l : List Abs} {a : Abs} (h : covered l a = true) : ∃ y ∈ l, a.le y = true := by
+  unfold covered at h
+  rw [List.any_eq_true] at h
+  exact h
+
+theorem TokM_enterSeq {a : Abs} {hi : Nat} (m : M κ) (h : TokM a hi m) : TokM a hi (enterSeq m) := by
+  cases m with
+  | mk c r x =>
+    cases r with
+    | lexer l => exact h
+    | scanner s =>
+      obtain ⟨h1, h2⟩ := h
+      refine ⟨?_, h2⟩
+      simp only [enterSeq, TokR] at h1 ⊢
+      cases ha : a.s <;> simp only [ha, TokS] at h1 ⊢ <;> exact h1
+
+theorem TokM_leaveSeq {a : Abs} {hi : Nat} (m : M κ) (h : TokM a hi m) : TokM a hi (leaveSeq m) := by
+  cases m with
+  | mk c r x =>
+    cases r with
+    | lexer l => exact h
+    | scanner s =>
+      obtain ⟨h1, h2⟩ := h
+      refine ⟨?_, h2⟩
+      simp only [leaveSeq, TokR] at h1 ⊢
+      cases ha : a.s <;> simp only [ha, TokS] at h1 ⊢ <;> exact h1
+
+/-- the certificate's successors of an arm of the current state -/
+theorem cert_body {cert : Cert} (hchk : checkCert env.tbl cert = true) {st : StateId} {sd : StateDef}
+    (hst : env.tbl.state? st = some sd) {a : Abs} (ha : a ∈ cert.at st) {arm : Arm} (harm : arm ∈ sd.arms) :
+    ∃ l1, bodySucc env.tbl st arm.pat.hasByte (arm.pat == .eof) arm.body a = some l1 ∧
+      ∀ x ∈ l1, succCovered env.tbl cert x = true := by
+  obtain ⟨succs, h1, h2⟩ := cert_arms hchk hst ha
+  obtain ⟨l1, e1, e2⟩ := armsSucc_mem h1 harm
+  exact ⟨l1, e1, fun x hx => h2 x (e2 x hx)⟩
+
+def SeqArmsTok (t : Table) (cert : Cert) (a : Abs) (pos : Nat) : (M κ × Option Signal) ⊕ M κ → Prop
+  | .inl r => TokStep t cert r
+  | .inr m' => TokM a pos m'
+
+theorem runSeqArms_tok {cert : Cert} (hchk : checkCert env.tbl cert = true) (hs : SinkSafe env.ops W inp U1)
+    (hs2 : SinkSafe2 env.ops inp) (hw : Wf env.tbl) {sd : StateDef} {n0 : Nat} (ch : Option UInt8)
+    (arms : List Arm) (m : M κ) (hst : env.tbl.state? m.c.state = some sd) (hsub : ∀ a ∈ arms, a ∈ sd.arms)
+    (hent : (sd.enter.isEmpty || m.c.entered) = true) (hm : MInvC W inp.length lo n0 ch (hasSeqArm arms) m)
+    {a : Abs} (ha : a ∈ cert.at m.c.state) (ht : TokM a (m.c.nextPos - 1) m) :
+    SeqArmsTok env.tbl cert a (m.c.nextPos - 1) (runSeqArms env inp ch arms m) := by
+  induction arms generalizing m with
+  | nil => simp only [runSeqArms, SeqArmsTok]; exact ht
+  | cons arm rest ih =>
+    have harm : arm ∈ sd.arms := hsub arm (by simp)
+    have hsub' : ∀ a ∈ rest, a ∈ sd.arms := fun a ha => hsub a (by simp [ha])
+    simp only [runSeqArms]
+    split
+    · rename_i bytes ic hpat
+      have hseqarm : hasSeqArm sd.arms = true := hasSeqArm_of_mem harm (by rw [hpat]; rfl)
+      have hc : (leaveSeq (enterSeq m)).c = m.c := by rw [(leaveSeq_c _).1, (enterSeq_c _).1]
+      have hcont : SeqArmsTok env.tbl cert a (m.c.nextPos - 1)
+          (runSeqArms env inp ch rest (leaveSeq (enterSeq m))) := by
+        have := ih (leaveSeq (enterSeq m)) (by rw [hc]; exact hst) hsub' (by rw [hc]; exact hent)
+          (leave_enter_MInvC m hm) (by rw [hc]; exact ha)
+          (by rw [hc]; exact TokM_leaveSeq _ (TokM_enterSeq _ ht))
+        rw [hc] at this
+        exact this
+      split
+      · exact hcont
+      · rename_i e0 es
+        split
+        · -- need more input
+          simp only [SeqArmsTok]
+          have hce := (enterSeq_c m).1
+          obtain ⟨a1, a2, a3, a4, a5, a6, a7⟩ := hm
+          have hbp : BreakPre env.tbl W inp.length (enterSeq m) := by
+            cases m with
+            | mk c r x =>
+            cases r with
+            | lexer l => exact ⟨a1, a4, sd, hst, a7⟩
+            | scanner s =>
+              refine ⟨a1, a4, sd, hst, ?_⟩
+              simp only [RegsC, enterSeq] at a7 ⊢
+              refine ⟨a7.1, fun p hp => ⟨(a7.2.1 p hp).1, (a7.2.1 p hp).2.2⟩, Or.inl ⟨rfl, ?_⟩⟩
+              simp only [seqResume, Bool.and_eq_true]
+              exact ⟨hseqarm, hent⟩
+          exact break_tokstep (enterSeq m) hbp (by rw [hce]; exact TokM_enterSeq _ ht) (by rw [hce]; exact hst)
+            (by rw [hce]; exact hent) (fun _ => by rw [hce]; exact covered_of_mem ha)
+        · exact hcont
+        · -- matched
+          rename_i hfirst
+          simp only [SeqArmsTok]
+          obtain ⟨a1, a2, a3, a4, a5, a6, a7⟩ := hm
+          have hmatch : ch.isSome = true ∧ (es ≠ [] → (enterSeq m).c.nextPos + es.length - 1 < inp.length) := by
+            cases ch with
+            | none => dsimp only at hfirst; split at hfirst <;> cases hfirst
+            | some c0 =>
+              refine ⟨rfl, fun hne => ?_⟩
+              dsimp only at hfirst
+              split at hfirst
+              · have := matchSeqFrom_matched es 1 hfirst hne
+                omega
+              · cases hfirst
+          have hpos := a5 hmatch.1
+          have hc' := (enterSeq_c m).1
+          have hx := (enterSeq_c m).2
+          have hbody := hw.body_ok hst harm
+          rw [hpat] at hbody
+          have hN : (leaveSeq { enterSeq m with c := { (enterSeq m).c with nextPos := (enterSeq m).c.nextPos + es.length } }).c.nextPos
+              = m.c.nextPos + es.length := by rw [(leaveSeq_c _).1, hc']
+          have hX : (leaveSeq { enterSeq m with c := { (enterSeq m).c with nextPos := (enterSeq m).c.nextPos + es.length } }).x = m.x := by
+            rw [(leaveSeq_c _).2, hx]
+          have hA : MInvA W inp.length lo true true
+              (leaveSeq { enterSeq m with c := { (enterSeq m).c with nextPos := (enterSeq m).c.nextPos + es.length } }) := by
+            have hlt : m.c.nextPos + es.length - 1 < inp.length := by
+              cases es with
+              | nil => simpa using hpos
+              | cons e' es' => have := hmatch.2 (by simp); rw [hc'] at this; exact this
+            refine ⟨by rw [hN]; omega, by rw [hN]; omega, by rw [hN]; omega, fun _ => by rw [hN]; exact hlt, ?_⟩
+            rw [hN, hX]
+            cases m with
+            | mk c r x =>
+            cases r with
+            | lexer l =>
+              simp only [RegsC, RegsA, enterSeq, leaveSeq] at a7 ⊢
+              dsimp only at a1 a2
+              refine ⟨a7.1, by omega, fun _ => by omega⟩
+            | scanner s =>
+              simp only [RegsC, RegsA, enterSeq, leaveSeq] at a7 ⊢
+              dsimp only at a1 a2
+              refine ⟨by omega, fun p hp => ?_, trivial⟩
+              have := a7.2.1 p hp
+              omega
+          have hstate : (leaveSeq { enterSeq m with c := { (enterSeq m).c with nextPos := (enterSeq m).c.nextPos + es.length } }).c.state
+              = m.c.state := by rw [(leaveSeq_c _).1, hc']
+          have hentd : (leaveSeq { enterSeq m with c := { (enterSeq m).c with nextPos := (enterSeq m).c.nextPos + es.length } }).c.entered
+              = m.c.entered := by rw [(leaveSeq_c _).1, hc']
+          have htm : TokM a (m.c.nextPos + es.length - 1)
+              (leaveSeq { enterSeq m with c := { (enterSeq m).c with nextPos := (enterSeq m).c.nextPos + es.length } }) := by
+            apply TokM_leaveSeq
+            have h0 := TokM_enterSeq m ht
+            exact TokM_regs ⟨TokR.mono h0.1 (by omega), h0.2⟩ rfl rfl
+          obtain ⟨l1, hl1, hcov⟩ := cert_body hchk hst ha harm
+          rw [hpat] at hl1
+          have hseq := runBody_tok (cert := cert) (isEof := false) hs hs2 arm.body _ hA (by rw [hN]) htm
+            (by rw [hstate]; exact hl1) hcov
+          have := armBody_tokstep (cert := cert) (isEof := false) hs hw arm.body _ (by rw [hstate]; exact hst)
+            (by rw [hentd]; exact hent) hA (by rw [hstate]; exact hbody) (by rw [hN]; exact hseq)
+          exact this
+    · rename_i hnot
+      apply ih m hst hsub' hent _ ha ht
+      have : hasSeqArm (arm :: rest) = hasSeqArm rest := by
+        simp only [hasSeqArm, List.any_cons]
+        have : arm.pat.isChSeq = false := by
+          cases hp : arm.pat <;> first | rfl | exact absurd hp (hnot _ _)
+        rw [this, Bool.false_or]
+      rw [this] at hm
+      exact hm
+
+/-- an arm that consumed no byte: signal, `reconsume`, or break -/
+theorem armBody_break_tok {cert : Cert} (hs : SinkSafe env.ops W inp U1) (hw : Wf env.tbl) {isEof : Bool}
+    (b : Body) (m : M κ) {sd : StateDef} (hst : env.tbl.state? m.c.state = some sd)
+    (hent : (sd.enter.isEmpty || m.c.entered) = true) (hm : MInvA W inp.length lo false true m)
+    (hlen : m.c.nextPos - 1 = inp.length)
+    (hok : ∀ s ∈ b.seqs, seqOK false s = true ∧ s.targetOK env.tbl.states.length = true ∧
+      ∀ x, s.trans = some (.reconsume x) → env.tbl.rank x < env.tbl.rank m.c.state)
+    (heof : isEof = false ∨ m.c.isLast = true)
+    (htok : SeqTok env.tbl cert false isEof m.c.state (m.c.nextPos - 1) (runBody env inp b m)) :
+    TokStep env.tbl cert
+      (match (runBody env inp b m).2.1, (runBody env inp b m).2.2 with
+       | some sig, _ => ((runBody env inp b m).1, some sig)
+       | none, .transitioned => ((runBody env inp b m).1, none)
+       | none, .fell => breakOnEndOfInput inp (runBody env inp b m).1) := by
+  obtain ⟨p1, p2, p3⟩ := runBody_post (n0 := 0) hs hw b m hm hok (Nat.zero_le _)
+  obtain ⟨q1, q2, q3, q4⟩ := htok
+  cases hsig : (runBody env inp b m).2.1 with
+  | some sig =>
+    (try dsimp only)
+    unfold TokStep
+    refine ⟨q2, ?_⟩
+    (try dsimp only)
+    cases sig with
+    | err e => exact q1 e hsig
+    | directive d bm => trivial
+    | endOfInput k => exact absurd (p1 _ hsig) (by simp [ActSigOK])
+  | none =>
+    cases hend : (runBody env inp b m).2.2 with
+    | transitioned =>
+      (try dsimp only)
+      unfold TokStep
+      exact ⟨q2, q3 hsig hend⟩
+    | fell =>
+      (try dsimp only)
+      obtain ⟨hfr, f', hA, hf'⟩ := p3 hsig hend
+      have hf'' : f' = true := by
+        rcases hf' with h | h
+        · cases h
+        · exact h
+      subst hf''
+      obtain ⟨a', ta, hc⟩ := q4 hsig hend
+      simp only [Bool.false_eq_true, if_false] at hc
+      have hE := runBody_fell_entered b m hsig hend
+      obtain ⟨a1, a2, a3, a4, a5⟩ := hA
+      have hbp : BreakPre env.tbl W inp.length (runBody env inp b m).1 := by
+        refine ⟨a1, a3, sd, by rw [hfr.2.1]; exact hst, ?_⟩
+        have hN := hfr.1
+        cases hr : (runBody env inp b m).1.r with
+        | lexer l =>
+          rw [hr] at a5
+          simp only [RegsA] at a5
+          exact ⟨a5.1, a5.2.2 trivial⟩
+        | scanner s =>
+          rw [hr] at a5
+          simp only [RegsA] at a5
+          exact ⟨a5.1, fun p hp => ⟨(a5.2.1 p hp).1, (a5.2.1 p hp).2.2⟩, Or.inr ⟨a5.2.2, by rw [hN]; exact hlen⟩⟩
+      apply break_tokstep _ hbp (a := a') (by rw [hfr.1]; exact ta) (by rw [hfr.2.1]; exact hst)
+        (by rw [hE]; exact hent)
+      intro hl
+      rw [hfr.2.1]
+      rcases heof with h | h
+      · exact hc h
+      · have hk := (runBody_keep (env := env) (inp := inp) b m).trans (breakOnEndOfInput_keep (inp := inp) _)
+        rw [hk.1, h] at hl
+        cases hl
+
+theorem dispatch_tok {cert : Cert} (hchk : checkCert env.tbl cert = true) (hs : SinkSafe env.ops W inp U1)
+    (hs2 : SinkSafe2 env.ops inp) (hw : Wf env.tbl) {sd : StateDef} {n0 : Nat} (ch : Option UInt8) (m : M κ)
+    (hst : env.tbl.state? m.c.state = some sd) (hent : (sd.enter.isEmpty || m.c.entered) = true)
+    (hm : MInvC W inp.length lo n0 ch (hasSeqArm sd.arms) m) {a0 : Abs}
+    (hcov0 : covered (cert.at m.c.state) a0 = true) (ht0 : TokM a0 (m.c.nextPos - 1) m) :
+    TokStep env.tbl cert (dispatch env inp ch sd.arms m) := by
+  obtain ⟨a, ha, hle⟩ := covered_elim hcov0
+  have ht : TokM a (m.c.nextPos - 1) m := ⟨TokR.le ht0.1 hle, ht0.2⟩
+  have h1 := runSeqArms_post hs hw ch sd.arms m hst (fun _ h => h) hent hm
+  have t1 := runSeqArms_tok hchk hs hs2 hw ch sd.arms m hst (fun _ h => h) hent hm ha ht
+  unfold dispatch
+  split
+  · rename_i r hr
+    rw [hr] at t1
+    exact t1
+  · rename_i m' hr
+    rw [hr] at h1 t1
+    obtain ⟨hC, hc⟩ := h1
+    simp only [SeqArmsTok] at t1
+    have hst' : env.tbl.state? m'.c.state = some sd := by rw [hc]; exact hst
+    have hent' : (sd.enter.isEmpty || m'.c.entered) = true := by rw [hc]; exact hent
+    have ha' : a ∈ cert.at m'.c.state := by rw [hc]; exact ha
+    have ht' : TokM a (m'.c.nextPos - 1) m' := by rw [hc]; exact t1
+    split
+    · rename_i hnone
+      exact absurd hnone (findArm_exhaustive (hw.state_exhaustive hst))
+    · rename_i arm hfind
+      obtain ⟨harm, hpm⟩ := findArm_some hfind
+      have hbody := hw.body_ok hst' harm
+      obtain ⟨l1, hl1, hcov⟩ := cert_body hchk hst' ha' harm
+      split
+      · -- eoc
+        rename_i hpat
+        rw [hpat] at hpm hbody hl1
+        have hch := patMatches_none hpm rfl
+        subst hch
+        have hA := MInvA_of_C (hb := false) m' hC (fun h => by cases h)
+        have hseq := runBody_tok (cert := cert) hs hs2 arm.body m' hA rfl ht' hl1 hcov
+        exact armBody_break_tok hs hw arm.body m' hst' hent' hA (hC.2.2.2.2.2.1 rfl) hbody (Or.inl rfl) hseq
+      · -- eof
+        rename_i hpat
+        rw [hpat] at hpm hbody hl1
+        have hch := patMatches_none hpm rfl
+        subst hch
+        have hA := MInvA_of_C (hb := false) m' hC (fun h => by cases h)
+        split
+        · rename_i hlast
+          have hseq := runBody_tok (cert := cert) hs hs2 arm.body m' hA rfl ht' hl1 hcov
+          exact armBody_break_tok hs hw arm.body m' hst' hent' hA (hC.2.2.2.2.2.1 rfl) hbody (Or.inr hlast) hseq
+        · exact break_tokstep m' (BreakPre_of_C m' hst' hC) ht' hst' hent' (fun _ => covered_of_mem ha')
+      · rename_i hne1 hne2
+        have hhb : arm.pat.hasByte = true := by
+          cases hp : arm.pat <;> first | rfl | exact absurd hp hne1 | exact absurd hp hne2
+        rw [hhb] at hbody hl1
+        have hsome := patMatches_some hpm hhb
+        have hA := MInvA_of_C (hb := true) m' hC (fun _ => hsome)
+        have hseq := runBody_tok (cert := cert) hs hs2 arm.body m' hA rfl ht' hl1 hcov
+        exact armBody_tokstep hs hw arm.body m' hst' hent' hA hbody hseq
+
 end
 end LolHtml.Model
